@@ -152,6 +152,27 @@ func runC04(c *Ctx) {
 			}
 		}
 	}
+	// every registered COSE algorithm identifier as the header's alg against every built-in key algorithm
+	// (an identifier that names "the same primitive" under another registration - e.g. the fully specified
+	// ESP256 -9 next to ES256 -7 - is a different algorithm): all structures, constructed and decoded
+	{
+		kinds := c04algKinds()
+		registered := []int64{-65535, -65534, -65533, -65532, -65531, -65530, -65529, -260, -259, -258, -257, -53, -52, -51, -50, -49, -48, -47, -46, -45, -44, -43, -42, -41, -40, -39, -38, -37, -36, -35, -34, -33, -32, -31, -30, -29, -28, -27, -26, -25, -19, -18, -17, -16, -15, -14, -13, -12, -11, -10, -9, -8, -7, -6, -5, -4, -3, 1, 2, 3, 4, 5, 6, 7, 10, 11, 12, 13, 14, 15, 24, 25, 26, 30, 31, 32, 33, 34}
+		for _, ka := range keyAlgs[:7] {
+			for _, d := range registered {
+				if d == int64(ka) {
+					continue
+				}
+				for si, st := range c04structures {
+					ext := exts[(si+int(d&1))%3]
+					if st == "hashenv" {
+						ext = nil
+					}
+					cells = append(cells, c04cell{st, kinds[2], 0, ka, cose.Algorithm(d), ext, "constructed"}, c04cell{st, kinds[2], 0, ka, cose.Algorithm(d), ext, "decoded"})
+				}
+			}
+		}
+	}
 	if c.Thorough {
 		// random int64 alg values against random key algorithms
 		r := mon.NewRand(uint64(c.Seed)).Sub(61000)
